@@ -10,6 +10,7 @@ import (
 	"strconv"
 	"strings"
 	"sync"
+	"syscall"
 	"time"
 )
 
@@ -34,6 +35,10 @@ type Run struct {
 	Pool   *Pool
 	Start  time.Time
 	Budget time.Duration // internal deadline; reaching it ends with exhaustive:false, exit 0
+	// done: spaces / task arguments already completed in this run (the thorough tier first runs everything the quick
+	// tier runs; what both tiers share is not explored twice)
+	done   map[string]bool
+	doneMu sync.Mutex
 
 	Stats       Stats
 	Found       []Found
@@ -49,6 +54,21 @@ type Run struct {
 func (r *Run) Deadline() time.Time { return r.Start.Add(r.Budget) }
 
 func (r *Run) Thorough() bool { return r.Tier == "thorough" }
+
+func (r *Run) isDone(k string) bool {
+	r.doneMu.Lock()
+	defer r.doneMu.Unlock()
+	return r.done[k]
+}
+
+func (r *Run) markDone(k string) {
+	r.doneMu.Lock()
+	defer r.doneMu.Unlock()
+	if r.done == nil {
+		r.done = map[string]bool{}
+	}
+	r.done[k] = true
+}
 
 // ExploreSpecs explores the specs concurrently over the shared worker pool (a spec with a
 // narrow frontier would otherwise leave workers idle).  Results are merged in spec order.
@@ -70,6 +90,12 @@ func (r *Run) ExploreSpecs(specs []Spec) {
 		if time.Now().After(r.Deadline()) {
 			break
 		}
+		kb, _ := json.Marshal(specs[i])
+		key := "space " + string(kb)
+		if r.isDone(key) {
+			results[i] = res{Stats{Exhaustive: true}, nil, nil, true}
+			continue
+		}
 		sem <- struct{}{}
 		wg.Add(1)
 		go func(i int) {
@@ -77,6 +103,9 @@ func (r *Run) ExploreSpecs(specs []Spec) {
 			defer func() { <-sem }()
 			st, found, err := Explore(r.Pool, specs[i], r.Deadline(), 3)
 			results[i] = res{st, found, err, true}
+			if err == nil && st.Exhaustive && len(found) == 0 {
+				r.markDone(key)
+			}
 		}(i)
 	}
 	wg.Wait()
@@ -116,6 +145,20 @@ func (r *Run) RunTaskGroup(label, name string, args []any) {
 		return
 	}
 	t0 := time.Now()
+	var fresh []any
+	var keys []string
+	for _, a := range args {
+		ab, _ := json.Marshal(a)
+		k := "task " + name + " " + string(ab)
+		if !r.isDone(k) {
+			fresh = append(fresh, a)
+			keys = append(keys, k)
+		}
+	}
+	args = fresh
+	if len(args) == 0 {
+		return
+	}
 	res, err := r.Pool.RunTasks(name, args)
 	if err != nil {
 		r.HarnessErr = err
@@ -123,6 +166,9 @@ func (r *Run) RunTaskGroup(label, name string, args []any) {
 	}
 	evals, viols := 0, 0
 	for i, x := range res {
+		if x.Herr == "" && len(x.Viols) == 0 {
+			r.markDone(keys[i])
+		}
 		if x.Herr != "" && r.HarnessErr == nil {
 			r.HarnessErr = fmt.Errorf("%s: %s", label, x.Herr)
 		}
@@ -215,11 +261,11 @@ func matchKnown(known []KnownFinding, prop string, f Found) *KnownFinding {
 // ---- replay files --------------------------------------------------------------------------
 
 type ReplayFile struct {
-	Property string `json:"property"`
-	Spec     Spec   `json:"spec"`
-	Path     []Op   `json:"path"`
-	Msg      string `json:"msg"`
-	Kind     string `json:"kind,omitempty"` // driver-specific replays
+	Property string          `json:"property"`
+	Spec     Spec            `json:"spec"`
+	Path     []Op            `json:"path"`
+	Msg      string          `json:"msg"`
+	Kind     string          `json:"kind,omitempty"` // driver-specific replays
 	Data     json.RawMessage `json:"data,omitempty"`
 }
 
@@ -437,6 +483,16 @@ func Main(args []string) int {
 	}
 	r.Pool = pool
 	fmt.Printf("check %s tier=%s workers=%d\n", id, tier, NumWorkers())
+	if tier == "thorough" && budget == 0 && os.Getenv("VERIF_THOROUGH_ONLY") == "" {
+		// the thorough tier never explores less than the quick tier: first everything the quick tier runs (under the
+		// quick tier's budget), then the thorough tier's own spaces and bounds (under the thorough budget)
+		fmt.Println("-- pass 1: the quick tier's spaces")
+		full := r.Budget
+		r.Tier, r.Budget = "quick", 5*time.Minute
+		def.Run(r)
+		r.Tier, r.Budget = "thorough", time.Since(r.Start)+full
+		fmt.Println("-- pass 2: the thorough tier's spaces")
+	}
 	def.Run(r)
 	pool.Close()
 	if r.HarnessErr != nil {
@@ -459,7 +515,7 @@ func Main(args []string) int {
 			continue
 		}
 		// believe a violation only if it replays identically 5 times
-		if f.Path != nil {
+		if f.Path != nil && f.Kind != "hang" { // (a history that does not return was already re-executed by the probe)
 			stable := true
 			for i := 0; i < 5; i++ {
 				msg, err := ReplayPath(f.Spec, f.Path)
@@ -486,6 +542,9 @@ func Main(args []string) int {
 	r.writeEvidence(nviol)
 	fmt.Printf("check %s done: states=%d transitions=%d exhaustive=%v violations=%d wall=%.1fs\n",
 		id, r.Stats.States, r.Stats.Transitions, r.Stats.Exhaustive, nviol, time.Since(r.Start).Seconds())
+	if os.Getenv("VERIF_VERBOSE") != "" {
+		fmt.Printf("  costliest single expansion request: %.1f s of CPU time (watchdog at %.0f s)\n", maxExpandCPU.v, hangCPU)
+	}
 	if nviol > 0 {
 		return 1
 	}
@@ -558,6 +617,37 @@ var replayHandlers = map[string]func(ReplayFile) int{
 			return 1
 		}
 		fmt.Println("no violation on replay")
+		return 0
+	},
+	// hang: the history's last operation did not return during the search; re-run it under a CPU-time watchdog
+	"hang": func(rf ReplayFile) int {
+		fmt.Printf("history: [%s]\n", OpsString(rf.Path))
+		go func() {
+			for {
+				time.Sleep(2 * time.Second)
+				var ru syscall.Rusage
+				if syscall.Getrusage(syscall.RUSAGE_SELF, &ru) != nil {
+					continue
+				}
+				used := float64(ru.Utime.Sec+ru.Stime.Sec) + float64(ru.Utime.Usec+ru.Stime.Usec)/1e6
+				if used > probeCPU {
+					fmt.Printf("violation: the history does not return (more than %.0f s of CPU time)\n", probeCPU)
+					fmt.Printf("VIOLATION property=%s replay=(history above)\n", rf.Property)
+					os.Exit(1)
+				}
+			}
+		}()
+		msg, err := ReplayPath(rf.Spec, rf.Path)
+		if err != nil {
+			fmt.Println("HARNESS ERROR:", err)
+			return 2
+		}
+		if msg != "" {
+			fmt.Println("violation:", msg)
+			fmt.Printf("VIOLATION property=%s replay=(history above)\n", rf.Property)
+			return 1
+		}
+		fmt.Println("the history returns; no violation on replay")
 		return 0
 	},
 	"message": func(rf ReplayFile) int {
